@@ -913,9 +913,26 @@ func windowTest(tb *TermBuilder, deb string, cond *Term) (string, *ssa.BasicBloc
 			if win >= 0 {
 				switch {
 				case isTextSearch(t.Name):
+					// what is looked for: the ban as given, or something computed from it (its reverse
+					// complement, by transform.ReverseComplement or by a helper of the module's own)
 					k := "strings.Contains"
 					for i, a := range t.Args {
-						if i != win && a.contains(func(x *Term) bool { return x.isCall("poly/transform.ReverseComplement") }) {
+						if i == win {
+							continue
+						}
+						// (a call applied to the element of the list, not a call that produced the list)
+						computed := a.contains(func(x *Term) bool {
+							if x.Op != "call" || strings.HasPrefix(x.Name, "builtin:") {
+								return false
+							}
+							for _, xa := range x.Args {
+								if xa.contains(func(y *Term) bool { return y.Op == "each" || y.Op == "index" }) {
+									return true
+								}
+							}
+							return false
+						})
+						if computed && !strings.HasSuffix(k, "(rc)") {
 							k += "(rc)"
 						}
 					}
